@@ -110,6 +110,17 @@ def check_cassette(ctx, case):
         s.get('lookup') for s in script) else 'no-lookup') + tuple('read:' + s['read'] for s in script))
 
 
+def renamed_variant(prog):
+    p = copy.deepcopy(prog)
+    for d in p['ins']:
+        if d.get('resolver'):
+            continue      # (a static fallback list cannot name the old alias per resolved name)
+        old = d['alias']
+        d['alias'] = old + '.v2'
+        d['fallback'] = {'kind': 'list', 'aliases': [old]}
+    return p
+
+
 def same_value(a, b):
     if V.has_vector(a) or V.has_vector(b):
         return V.deep_same(a, b)
@@ -139,6 +150,10 @@ def check_replay(ctx, case):
         doubled.append(s_)
         if s_['t'] == 'in' and s_['beh'] == 'raise':
             doubled.append(copy.deepcopy(s_))
+    if case.get('renamed'):
+        # every read is made twice in a row (the replayed code asks again): the second answer is as fresh as the first
+        doubled = [x for s_ in doubled for x in ([s_, copy.deepcopy(s_)] if s_['t'] == 'in' and s_['beh'] == 'ret'
+                                                else [s_])]
     prog['steps'] = doubled
     odd = case.get('odd_eq')
     if odd:
@@ -198,7 +213,12 @@ def check_replay(ctx, case):
             sid_map[a['sid']] = b['sid']
         changed = 0
         first_ro = None
-        for round_, (p, smap) in enumerate([(mut, sid_map), (prog, None), (mut, sid_map), (prog, None)]):
+        replay_mut, replay_prog = mut, prog
+        if case.get('renamed'):
+            # the replaying code has renamed its inputs since the recording was made and lists the old alias as fallback
+            replay_mut, replay_prog = renamed_variant(mut), renamed_variant(prog)
+        for round_, (p, smap) in enumerate([(replay_mut, sid_map), (replay_prog, None), (replay_mut, sid_map),
+                                            (replay_prog, None)]):
             W2 = PS.World('REPLAY')
             W2.mutate_exceptions = True
             cls2 = PS.build_class(p, rec, W2)
@@ -258,7 +278,7 @@ def check_replay(ctx, case):
                 if not same_value(norm({o.key: again}), norm({o.key: pristine[o.key]})):
                     raise Violation('mutating Playback.recorded_outputs changed what the recording returns under %r: '
                                     '%r, was %r' % (o.key, again, pristine[o.key]), 'recorded-outputs')
-            if p is mut:
+            if p is replay_mut:
                 changed += sum(1 for s in calls_orig if s['beh'] != 'raise' and V.is_mutable(V.build(s['ret'])))
     finally:
         for c in classes:
@@ -266,6 +286,7 @@ def check_replay(ctx, case):
         z.__exit__(None, None, None)
     ctx.case(case, changed > 0, classes=('replay', 'cassette:' + case['cassette'], 'copy-on' if copy_on else 'copy-off') + (
         ('odd-equality:%s' % case['odd_eq']['type'],) if case.get('odd_eq') else ()) + (
+            ('renamed-inputs-with-fallback',) if case.get('renamed') else ()) + (
         ('copy-on:params=%s' % sorted((case.get('copy_params') or {}).get('params', {}).items()),) if copy_on else ()))
 
 
@@ -304,7 +325,7 @@ def replay_cases():
                              st.tuples(progs(fam_b), st.none()))
     return st.fixed_dictionaries({'kind': st.just('replay'), 'prog_odd': prog_and_odd,
                                   'cassette': st.sampled_from(['memory', 'memory', 'file', 's3', 'async']),
-                                  'copy_on': st.booleans(),
+                                  'copy_on': st.booleans(), 'renamed': st.sampled_from([False, False, True]),
                                   'copy_params': st.sampled_from([
                                       None, None, {'params': {'sampling_rate': 0}, 'force_first': True},
                                       {'params': {'sampling_rate': 0}, 'force_first': False},
